@@ -529,15 +529,29 @@ def dos_smear_unit(u, res):
     fpts = np.array([1.5, 3.0])
     gs = harness.reals("G", nq * nb * len(fpts)); es = harness.reals("E2", nq * npdos * nb)
     G = symnp.wrap_reals(gs, (len(fpts), nq, nb)); E2 = symnp.wrap_reals(es, (nq, npdos, nb))
-    Abox = box(gs, 0, 1) + box(es, 0, 1)
+    # the smearing function is an *uninterpreted* function of its argument: g(x) is the symbol attached to the value x (the same x gives the
+    # same symbol; an x the oracle never evaluates gets a fresh symbol) - so code that evaluates g on a subset, in another order or at other
+    # arguments is still decided, not crashed
+    table = {}
+    for k in range(len(fpts)):
+        for q in range(nq):
+            for b in range(nb):
+                table[float(freqs[q, b] - fpts[k])] = symnp.SR(gs[(k * nq + q) * nb + b])
+    extra = []
 
     class Amp:
-        def __init__(s):
-            s.k = -1
-
         def calc(s, x):
-            s.k = (s.k + 1) % len(fpts)
-            return G[s.k]
+            x = np.asarray(x)
+            if any(isinstance(t, z3.ExprRef) for t in symnp.unwrap(x)):
+                raise HarnessError("smearing function evaluated at a symbolic argument")
+            out = np.empty(x.shape, dtype=object)
+            for ix in np.ndindex(x.shape):
+                key_ = float(x[ix])
+                if key_ not in table:
+                    extra.append(z3.Real("Gx_%d" % len(extra)))
+                    table[key_] = symnp.SR(extra[-1])
+                out[ix] = table[key_]
+            return symnp.symarray(list(out.ravel()), x.shape) if x.shape else out[()]
     mesh = FakeMeshObj(freqs, weights, eigenvectors=np.ones((nq, 3 * 2, nb), dtype=complex))
     with symnp.session({"phonopy.phonon.dos"}):
         td = dosm.TotalDos(mesh, sigma=0.1)
@@ -548,9 +562,11 @@ def dos_smear_unit(u, res):
         pd._frequency_points = fpts; pd._smearing_function = Amp(); pd._eigvecs2 = E2
         pd.run()
         pdos = np.asarray(pd.projected_dos, dtype=object)
+    Abox = box(gs + extra, 0, 1) + box(es, 0, 1)
     wn = weights / float(weights.sum())
-    want_t = [sum(wn[q] * symnp.SR(gs[(k * nq + q) * nb + b]) for q in range(nq) for b in range(nb)) for k in range(len(fpts))]
-    want_p = [[sum(wn[q] * symnp.SR(gs[(k * nq + q) * nb + b]) * symnp.SR(es[(q * npdos + j) * nb + b]) for q in range(nq) for b in range(nb)) for k in range(len(fpts))] for j in range(npdos)]
+    gval = lambda k, q, b: table[float(freqs[q, b] - fpts[k])]
+    want_t = [sum(wn[q] * gval(k, q, b) for q in range(nq) for b in range(nb)) for k in range(len(fpts))]
+    want_p = [[sum(wn[q] * gval(k, q, b) * symnp.SR(es[(q * npdos + j) * nb + b]) for q in range(nq) for b in range(nb)) for k in range(len(fpts))] for j in range(npdos)]
     v, m, idx = assert_equal(res, "TotalDos (smearing) == sum_q w_q sum_b g(f_qb - f) / sum_q w_q for all amplitudes", symnp.unwrap(tdos), symnp.unwrap(symnp.symarray(want_t)), Abox, tol=1e-10)
     if v == "sat":
         ok, what = replay_dos_smear()
@@ -632,7 +648,14 @@ def replay_dos_smear():
     e2 = np.abs(ev) ** 2
     want_p = np.array([[sum(weights[q] * ((e2[q, 3 * a] + e2[q, 3 * a + 1] + e2[q, 3 * a + 2]) * g(freqs[q] - f)).sum() for q in range(nq)) / weights.sum() for f in fpts] for a in range(nb // 3)])
     d2 = float(np.abs(np.array(pd.projected_dos) - want_p).max())
-    return max(d1, d2) > 1e-10, "smearing DOS differs from the weight-normalised sum of Gaussians: total by %.3g, projected by %.3g" % (d1, d2)
+    # the same with the Lorentzian (set_smearing_function("Cauchy")): its tails are not negligible anywhere
+    gc = lambda x: sigma / (np.pi * (x * x + sigma * sigma))
+    td = dosm.TotalDos(mesh, sigma=sigma); td.set_smearing_function("Cauchy"); td._frequency_points = fpts; td.run()
+    d3 = float(np.abs(np.array(td.dos) - np.array([sum(weights[q] * gc(freqs[q] - f).sum() for q in range(nq)) / weights.sum() for f in fpts])).max())
+    pd = dosm.ProjectedDos(mesh, sigma=sigma); pd.set_smearing_function("Cauchy"); pd._frequency_points = fpts; pd.run()
+    want_pc = np.array([[sum(weights[q] * ((e2[q, 3 * a] + e2[q, 3 * a + 1] + e2[q, 3 * a + 2]) * gc(freqs[q] - f)).sum() for q in range(nq)) / weights.sum() for f in fpts] for a in range(nb // 3)])
+    d4 = float(np.abs(np.array(pd.projected_dos) - want_pc).max())
+    return max(d1, d2, d3, d4) > 1e-10, "smearing DOS differs from the weight-normalised sum of the smearing function: Gaussian total by %.3g, projected by %.3g; Lorentzian total by %.3g, projected by %.3g" % (d1, d2, d3, d4)
 
 
 def _dos_mesh(gid):
